@@ -1,5 +1,5 @@
 """C15 — reader registration is dynamic: threads come and go without breaking grace periods (structural part)."""
-from .. import ir, mm, pat, paths, lockset
+from .. import ir, mm, pat, paths, lockset, linear
 from ..core import Broken
 from ..flavors import FL, ALL, PARITY
 from ..regpair import check_regpair
@@ -95,6 +95,28 @@ def rule_arena(ctx, rep):
     for c in mr:
         fl = ir.const_of(ex, c.args[3])
         rep.check(fl == 0, "C15.arena", "mremap-flags", "mremap is called with flags 0: a live chunk is only ever grown in place", "mremap flags = %s: the kernel may move a chunk that registered readers point into" % fl, [c.where()])
+    # in-place growth: exactly the appended bytes [old size, new size) are zeroed - the old range holds live reader slots and the
+    # new slots must read alloc == 0
+    for c in mr:
+        ms = [i for i in ex.all_insts() if i.op == "call" and i.callee and i.callee.startswith("llvm.memset") and ex.dominates(c, i)
+              and not any(ir.expr_contains(ir.expr(ex, i.args[0], 6), lambda z: z[0] == "call" and z[1] == "mmap") for _ in (0,))]
+        ms = [i for i in ms if ex.reach([c], [i], avoid=lambda x: x.op == "call" and x.callee == "mmap")[0] is not None]
+        pat.require(ms, "expand_arena: memset after in-place mremap")
+        old_sz = ir.expr(ex, c.args[1], 8)
+        new_sz = ir.expr(ex, c.args[2], 8)
+        for i in ms:
+            g = ex.insts[i.args[0][1]] if i.args[0][0] == "i" else None
+            off = ir.expr(ex, g.args[1], 8) if g is not None and g.op == "gep" and len(g.args) == 2 else None
+            ln = ir.expr(ex, i.args[2], 8)
+            L = [linear.norm(x) if x is not None else None for x in (off, ln, old_sz, new_sz)]
+            if any(x is None for x in L) or ir.expr(ex, g.args[0], 8) != ir.expr(ex, c.args[0], 8):
+                raise Broken("expand_arena: zeroed range of the in-place growth is not a linear function of the capacity (%s, %s)" % (ir.expr_str(off) if off else "?", ir.expr_str(ln)))
+            ok_off = L[0] == L[2]
+            ok_len = L[1] == linear.sub(L[3], L[2])
+            rep.check(ok_off and ok_len, "C15.arena", "expand.zero-exactly-appended", "in-place growth zeroes exactly [old chunk size, new chunk size) of the grown chunk",
+                      "in-place growth zeroes [%s, +%s) instead of [old size, new size): %s" % (ir.expr_str(off) if off is not None else "?", ir.expr_str(ln),
+                      "live reader slots of registered threads are wiped (their nesting count / alloc flag reads 0: grace periods stop waiting for them, slots are handed out twice)"
+                      if not ok_off else "slots appended by the growth keep stale bytes / live slots are wiped"), [i.where()])
     w = pm.fn("mremap_wrapper")
     if w is not None:
         for c in pat.calls(w, "mremap"):
@@ -112,7 +134,7 @@ def rule_arena(ctx, rep):
             rep.check(ok, "C15.arena", "%s.munmap-when-refcount-0" % f.name, "chunks unmapped only when the reference count reaches 0", "chunks unmapped while the library is still referenced", [c.where()])
 
 
-def rule_slot(ctx, rep):
+def rule_slot(ctx, rep, rid="C15.slot"):
     pm = ctx.mod("bp", "perfn")
     al = pm.fn("arena_alloc")
     cl = pm.fn("cleanup_thread")
@@ -125,20 +147,20 @@ def rule_slot(ctx, rep):
     for s in sets:
         lv = pat.dom_leaf_atoms(al, s)
         ok = any(a[0] == "eq" and a[2] == ("c", 0) and ir.expr_contains(a[1], lambda z: z[0] == "load" and z[1].endswith("urcu_bp_reader.alloc")) for a in lv)
-        rep.check(ok, "C15.slot", "alloc.takes-free-slot", "a slot is taken only when its alloc flag is 0", "arena_alloc can hand out a slot that is already allocated (two threads share one reader word)", [s.where()])
+        rep.check(ok, rid, "alloc.takes-free-slot", "a slot is taken only when its alloc flag is 0", "arena_alloc can hand out a slot that is already allocated (two threads share one reader word)", [s.where()])
         used = [x for x in pat.stores(al, "registry_chunk.used")]
-        rep.must_pass("C15.slot", "alloc.used++", al, [s], None, lambda i: i in used, to_exit=True, what="used is incremented with every allocation")
+        rep.must_pass(rid, "alloc.used++", al, [s], None, lambda i: i in used, to_exit=True, what="used is incremented with every allocation")
     want = {"urcu_bp_reader.ctr": 0, "urcu_bp_reader.tid": 0, "urcu_bp_reader.alloc": 0}
     for fld, val in want.items():
         st = [s for s in pat.stores(cl, fld) if ir.const_of(cl, s.args[0]) == val]
         if not st:
-            rep.bad("C15.slot", "cleanup." + fld, "cleanup_thread does not reset %s: the freed slot keeps a stale %s" % (fld, fld.split(".")[-1]), [cl.name])
+            rep.bad(rid, "cleanup." + fld, "cleanup_thread does not reset %s: the freed slot keeps a stale %s" % (fld, fld.split(".")[-1]), [cl.name])
         else:
-            rep.must_pass("C15.slot", "cleanup." + fld, cl, [cl.entry()], None, lambda i: i in st, to_exit=True, include_start=True, what="%s reset on every path" % fld)
+            rep.must_pass(rid, "cleanup." + fld, cl, [cl.entry()], None, lambda i: i in st, to_exit=True, include_start=True, what="%s reset on every path" % fld)
     dl = pat.calls(cl, "cds_list_del")
     us = [s for s in pat.stores(cl, "registry_chunk.used") if (lambda e: e[0] == "bin" and e[1] == "add" and e[3] == ("c", -1))(ir.expr(cl, s.args[0]))]
-    rep.check(bool(dl), "C15.slot", "cleanup.list_del", "the slot is unlinked from the registry", "cleanup_thread leaves the slot on the registry list", [cl.name])
-    rep.check(bool(us), "C15.slot", "cleanup.used--", "used is decremented", "cleanup_thread does not decrement used", [cl.name])
+    rep.check(bool(dl), rid, "cleanup.list_del", "the slot is unlinked from the registry", "cleanup_thread leaves the slot on the registry list", [cl.name])
+    rep.check(bool(us), rid, "cleanup.used--", "used is decremented", "cleanup_thread does not decrement used", [cl.name])
 
 
 def rule_key(ctx, rep):
